@@ -97,6 +97,8 @@ func Load(dir string, overlay map[string][]byte, patterns []string) (*Program, e
 	addGobModel(P)
 	addStringModels(P)
 	addSymStrings(P)
+	addBLSModel(P)
+	addWalletModel(P)
 	return P, nil
 }
 
